@@ -120,6 +120,17 @@ def gen_cases(ctx):
         r, c = rng.choice([(1, 1), (2, 2), (2, 3), (3, 2), (4, 3), (3, 5)])
         lam = rng.choice([0.0, 0.5, 1.0, rng.posreal(-2, 1)])
         cases.append(dict(op="nuc", r=r, c=c, λ=lam, γ=rng.posreal(-2, 1), v=[rng.gauss(0, 1) for _ in range(r * c)]))
+    # flat / low-rank matrices whose largest ENTRY is far below their largest SINGULAR VALUE, thresholds in between, at and beyond σ_max;
+    # exact ties and zero matrices
+    for r, c in ((2, 2), (3, 3), (2, 3), (4, 3), (3, 5)):
+        for a in (1.0, 0.25):
+            smax = a * math.sqrt(r * c)
+            for t in (0.5 * a, a, 0.5 * (a + smax), smax * (1 - 2 ** -20), smax * 1.25):
+                for γ in (1.0, 0.5):
+                    cases.append(dict(op="nuc", r=r, c=c, λ=t / γ, γ=γ, v=[a] * (r * c)))
+                    sgn = [a * (1 if (i + j) % 2 == 0 else -1) for j in range(c) for i in range(r)]
+                    cases.append(dict(op="nuc", r=r, c=c, λ=t / γ, γ=γ, v=sgn))
+        cases.append(dict(op="nuc", r=r, c=c, λ=1.0, γ=1.0, v=[0.0] * (r * c)))
     return cases
 
 def to_input(c):
